@@ -220,10 +220,14 @@ impl<L: Language> RuleCore<L> {
         return None;
       }
     }
-    let ret = self.rule.match_node_with_env(node, env)?;
-    if !env.to_mut().match_constraints(&self.constraints) {
+    // match into a scratch env and commit it only if the constraints hold:
+    // a node rejected by the constraints must not leave its bindings to the caller's next candidate
+    let mut new_env = Cow::Borrowed(env.as_ref());
+    let ret = self.rule.match_node_with_env(node, &mut new_env)?;
+    if !new_env.to_mut().match_constraints(&self.constraints) {
       return None;
     }
+    *env = Cow::Owned(new_env.into_owned());
     if let Some(trans) = &self.transform {
       let rewriters = self.registration.get_rewriters();
       let env = env.to_mut();
